@@ -148,6 +148,7 @@ type srvScen struct {
 	tokens   map[string][]tokIssue      // ip16 hex -> tokens issued
 	announced map[string]map[string]int // ih hex -> raw ip hex -> port
 	intro    map[string]bool            // id/addrkey introduced by a direct event
+	answered map[string]bool            // id@addr that really answered one of the server's own queries (harness truth)
 	expectW  int                        // datagrams expected so far
 	seenW    int                        // writes already attributed
 	dead     bool
@@ -167,7 +168,7 @@ type tokIssue struct {
 }
 
 func (r *Run) newSrvScen(o srvOpts) *srvScen {
-	sc := &srvScen{r: r, o: o, mute: o.mute, tokens: map[string][]tokIssue{}, announced: map[string]map[string]int{}, intro: map[string]bool{}, nextPt: 10000}
+	sc := &srvScen{r: r, o: o, mute: o.mute, tokens: map[string][]tokIssue{}, announced: map[string]map[string]int{}, intro: map[string]bool{}, answered: map[string]bool{}, nextPt: 10000}
 	sc.conn = newFakeConn(nil)
 	cfg := baseConfig(sc.conn)
 	cfg.NoSecurity = o.noSecurity
@@ -981,6 +982,7 @@ func (sc *srvScen) respondingNodeVia(addr *net.UDPAddr, id [20]byte, ro bool, pi
 	sc.inject(addr, q.bval().enc(), "m", q, false, "ok", "nf")
 	select {
 	case <-done:
+		sc.answered[hx(id[:])+"@"+dht.NewAddr(addr).String()] = true
 	case <-time.After(5 * time.Second):
 		sc.viol("C07", "matching reply did not complete the ping")
 	}
